@@ -1,23 +1,29 @@
+_EPS = ['new', 'new[]', 'new(nothrow)', 'new[](nothrow)', 'new(file,line)', 'new[](file,line)', 'malloc', 'calloc', 'realloc(NULL)', 'realloc(live)', 'strdup', 'strndup']
+# requests per entry point with the thread-safe overload set active (the default set gets the other half of every section)
+TS_REQ = ['requests:threadsafe-overloads:' + e for e in _EPS]
+# requests issued while the C interface simulates out-of-memory, per overload set: the exhaustive c_out_of_memory section alone gives 4 sizes x 2 allocator modes x 2 sanitizer builds
+OOM_FLOOR = {'c_oom_request:%s-overloads:%s:null' % (o, e): 16 for o in ('default', 'threadsafe') for e in ('malloc', 'calloc', 'strdup', 'strndup', 'realloc(NULL)', 'realloc(live)')}
 P = dict(
     harness='c05_allocsound.cpp',
     variants=['asan', 'asan-noguard', 'memcheck'],
     memcheck_stride=dict(quick=40, thorough=40),
     level='fault_enumeration',
-    technique='runtime monitoring: the real new/new[]/nothrow/malloc/calloc/realloc/strdup/strndup entry points against a private detector, with recording PlatformSpecificMalloc/Realloc/Free seams (request sizes, 64 MiB refusal, NULL injected at every call index in turn), recording TestMemoryAllocators, an id-pattern block model and ASan/UBSan, on builds with and without guard bytes',
-    rule='cases: every size 0..4096 through all 12 entry points; 2^k+-3 (k<=63) and the top 64 sizes, one entry point per case; calloc (count, size) lattice around 2^64; strndup (length, limit) lattice; requests under cpputest_malloc_set_out_of_memory; '
-         'seeded scripts of 45-70 allocate/realloc/release steps run once per fault point (platform malloc/realloc returns NULL once; TestMemoryAllocator returns NULL once; C-level countdown; platform realloc + next call fail) ; random scripts with one hostile size. '
+    technique='runtime monitoring: the real new/new[]/nothrow/malloc/calloc/realloc/strdup/strndup entry points against a private detector, with recording PlatformSpecificMalloc/Realloc/Free seams (request sizes, 64 MiB refusal, NULL injected at every call index in turn), recording TestMemoryAllocators, an id-pattern block model and ASan/UBSan, on builds with and without guard bytes; the active overload set (default / thread-safe new-delete-malloc overloads) is a dimension of every section, including simulated out-of-memory through the C interface',
+    rule='cases: every size 0..4096 through all 12 entry points; 2^k+-3 (k<=63) and the top 64 sizes, one entry point per case; calloc (count, size) lattice around 2^64; strndup (length, limit) lattice; requests (8 entry points incl. realloc of NULL and of a live block x 4 sizes x recording allocators x overload set) under cpputest_malloc_set_out_of_memory; '
+         'seeded scripts of 45-70 allocate/realloc/release steps run once per fault point (platform malloc/realloc returns NULL once; TestMemoryAllocator returns NULL once; C-level countdown, the 1-3 following steps - realloc of live blocks included - run while it has expired; platform realloc + next call fail), workloads alternate between the two overload sets; random scripts with one hostile size. '
          'Non-trivial (one signature per case) = a sweep size within 64 of a power of two or of SIZE_MAX (signature: entry point or "all entry points", size class), a calloc pair with an overflowing / boundary product, '
          'every strndup (length, limit) lattice point, every request under simulated out-of-memory, a fault case whose injected NULL was consumed (signature: entry point, size class, workload, fault kind, fault index), '
          'a random script with a hostile or near-power-of-two request (signature: entry point, size class of that request)',
     floor=dict(quick=8000, thorough=30000),
     counter_floor=dict(
-        quick={'blocks_filled': 50000, 'extent_checked_against_seam_request': 50000, 'fault_points_taken:kind0': 200, 'fault_points_taken:kind1': 100, 'realloc_prefixes_checked': 5000, 'calloc_blocks_checked_for_zero': 4000, 'string_copies_compared_with_libc': 5000},
-        thorough={'blocks_filled': 100000, 'extent_checked_against_seam_request': 100000, 'fault_points_taken:kind0': 800, 'fault_points_taken:kind1': 400, 'realloc_prefixes_checked': 10000, 'calloc_blocks_checked_for_zero': 4000, 'string_copies_compared_with_libc': 5000},
+        quick={'blocks_filled': 50000, 'extent_checked_against_seam_request': 50000, 'fault_points_taken:kind0': 200, 'fault_points_taken:kind1': 100, 'realloc_prefixes_checked': 5000, 'calloc_blocks_checked_for_zero': 4000, 'string_copies_compared_with_libc': 5000, **OOM_FLOOR, **{k: 10000 for k in TS_REQ}},
+        thorough={'blocks_filled': 100000, 'extent_checked_against_seam_request': 100000, 'fault_points_taken:kind0': 800, 'fault_points_taken:kind1': 400, 'realloc_prefixes_checked': 10000, 'calloc_blocks_checked_for_zero': 4000, 'string_copies_compared_with_libc': 5000, **OOM_FLOOR, **{k: 20000 for k in TS_REQ}},
     ),
     assumptions=['Gcc/LP64, exceptions enabled', 'the platform seam refuses requests above 64 MiB and behaves like glibc for realloc(p, 0) (frees p, returns NULL)',
                  'blocks above 4 MiB are written/verified at both ends and on a 4093-byte stride, not completely',
                  'releases are not issued while cpputest_malloc_set_out_of_memory() is in force (the current allocator differs from the allocating one: C06 territory)',
-                 'strdup/strndup of a NULL string is not generated'],
+                 'strdup/strndup of a NULL string is not generated',
+                 'thread-safe overloads are driven from one thread only (legal use; C10 decides concurrency); no misuse is generated in that mode, only allocation failure'],
     stall_s=120,
     confirm_s=60,
 )
